@@ -97,7 +97,7 @@ def setup(tier):
 def budget(tier):
     if tier == "quick":
         return {"examples": 400, "shards": 1}
-    return {"examples": 5000, "shards": 16}
+    return {"examples": 12000, "shards": 16}
 
 
 # ---------------------------------------------------------------- cases
